@@ -60,6 +60,8 @@ OPS = [
     ("sort", ((R("b"), False), (R("a"), True))),
     ("sort", ((R("x"), True),)),
     ("sort", ((("add", R("a"), R("b")), False),)),
+    ("sort", ((R("b"), True),)),
+    ("sort", ((R("c"), False),)),
     ("slice", 0, 1),
     ("slice", 1, 3),
     ("slice", 1, None),
